@@ -28,7 +28,7 @@ import (
 )
 
 func init() {
-	props["C20"] = &prop{gen: genC20, eval: evalC20}
+	props["C20"] = &prop{gen: genC20, eval: evalC20, par: func(string) bool { return true }}
 }
 
 // ---- building dictionaries from the case syntax ----
